@@ -971,9 +971,17 @@ def gen_sched(g):
                                 ['ConstantPWM', 'ConstantPWM']]))
     if mode != 'split' and g.chance(0.3):
         add_stops(g, scn, model, chain, p=1.0)
+    if scn.get('rules'):
+        # a new, identical controller object for a later run
+        later = [o for o in scn['schedule'] if o['op'] == 'run'][1:]
+        for o in later:
+            if g.chance(0.2):
+                o['new_control'] = True
     if mode != 'split':
         second = copy.deepcopy(scn['schedule'])
         second[0]['solver'] = r.choice(['same', 'new'])
+        if scn.get('rules') and g.chance(0.3):
+            second[0]['new_control'] = True
         # the duty cycle is either re-applied with the other initial
         # conditions or left to reset() (comparable only if the controller
         # applied the pre-run duty cycle again at t = 0, see the oracle)
@@ -1431,6 +1439,9 @@ def gen_ctrl(g, profile='ctrl'):
     for op in sched:
         if op['op'] == 'run':
             op['control'] = bool(scn['rules']) or g.chance(0.5)
+    for op in [o for o in sched if o['op'] == 'run'][1:]:
+        if scn['rules'] and g.chance(0.15):
+            op['new_control'] = True
     if not scn['rules']:
         # an empty rule set is still a controller (default duty 1): either
         # a PWMControl without any rule or one rule that never applies
